@@ -469,6 +469,14 @@ func (h *harness) doOp(st *kernel.Step) {
 			if (err == nil) != refOK {
 				h.fail("C02.init@"+kind+"/"+why, "Init returned %v, reference says acceptable=%v (%s)", err, refOK, why)
 			}
+			if err != nil && h.res.Violation == nil {
+				// a refused initial state is not staged and is never signed
+				if !bytes.Equal(before, h.snapshot()) {
+					h.fail("C02.refusal-mutates@init", "a refused Init changed the machine (phase %v, staged=%v)", h.m.Phase(), h.m.StagingState() != nil)
+				} else if sig, serr := h.m.Sig(); serr == nil && sig != nil {
+					h.fail("C02.signed-refused@init", "Sig() produced a signature after a refused Init")
+				}
+			}
 		}
 		if h.outcome(op, want, err, pan, before) {
 			s := h.m.StagingState()
